@@ -616,4 +616,319 @@ theorem rt_bytes (cfg : DecCfg) (t : GoType) (v : GoVal) (hok : okType t = true)
   refine ⟨c, h1, by simp [marshalVal, h1], fun hwf => ?_⟩
   simp [unmarshalVal, decodeAll_encode c hwf, h2]
 
+
+
+
+theorem decodeVal_undef (cfg : DecCfg) (t : GoType) : ∃ w, decodeVal cfg t (.simple 23) = some w := by
+  cases t <;> simp [decodeVal]
+
+/-- nil reads as the zero felt. -/
+def feltOrZero : GoVal → GoVal
+  | .nil => .felt 0 0 0 0
+  | w => w
+
+/-- A pointer-typed field succeeds whenever the value-typed one does, and gives nil or the same value. -/
+theorem decodeKT_ptr_of (cfg : DecCfg) (kvs : List (Cbor × Cbor)) (key : Bytes) (t : GoType) (v : GoVal)
+    (h : decodeKT cfg kvs key t = some v) :
+    decodeKT cfg kvs key (.ptr t) = some .nil ∨ decodeKT cfg kvs key (.ptr t) = some v := by
+  unfold decodeKT at h ⊢
+  cases hl : mapLookup (Cbor.text key) kvs with
+  | none => left; simp [zeroVal]
+  | some c =>
+    simp only [hl] at h ⊢
+    by_cases h22 : c = .simple 22
+    · left; subst h22; simp [decodeVal]
+    · by_cases h23 : c = .simple 23
+      · left; subst h23; simp [decodeVal]
+      · right; rw [decodeVal_ptr_nonNull cfg t c h22 h23]; exact h
+
+/-- A value-typed field succeeds whenever the pointer-typed one does. -/
+theorem decodeKT_of_ptr (cfg : DecCfg) (kvs : List (Cbor × Cbor)) (key : Bytes) (t : GoType) (v : GoVal)
+    (h : decodeKT cfg kvs key (.ptr t) = some v) : ∃ w, decodeKT cfg kvs key t = some w := by
+  unfold decodeKT at h ⊢
+  cases hl : mapLookup (Cbor.text key) kvs with
+  | none => exact ⟨_, rfl⟩
+  | some c =>
+    simp only [hl] at h ⊢
+    by_cases h22 : c = .simple 22
+    · subst h22; exact ⟨_, decodeVal_null cfg t⟩
+    · by_cases h23 : c = .simple 23
+      · subst h23; exact decodeVal_undef cfg t
+      · rw [decodeVal_ptr_nonNull cfg t c h22 h23] at h; exact ⟨v, h⟩
+
+/-- `felt` value against `*felt`: nil reads as the zero felt, anything else as itself. -/
+theorem decodeKT_felt_of_ptr (cfg : DecCfg) (kvs : List (Cbor × Cbor)) (key : Bytes) (v : GoVal)
+    (h : decodeKT cfg kvs key (.ptr .felt) = some v) :
+    decodeKT cfg kvs key .felt = some (feltOrZero v) := by
+  unfold decodeKT at h ⊢
+  cases hl : mapLookup (Cbor.text key) kvs with
+  | none => simp [hl, zeroVal] at h ⊢; subst h; rfl
+  | some c =>
+    simp only [hl] at h ⊢
+    by_cases h22 : c = .simple 22
+    · subst h22; simp [decodeVal] at h ⊢; subst h; rfl
+    · by_cases h23 : c = .simple 23
+      · subst h23; simp [decodeVal] at h ⊢; subst h; rfl
+      · rw [decodeVal_ptr_nonNull cfg .felt c h22 h23] at h
+        rw [h]
+        -- a decoded felt is never nil
+        have : ∃ a b c' d, v = .felt a b c' d := by
+          simp only [decodeVal] at h
+          split at h <;> simp_all
+          exact ⟨_, _, _, _, h.2.symm⟩
+        obtain ⟨a, b, c', d, rfl⟩ := this
+        rfl
+
+/-- Projection tables up to pointer-ness: every field of `ps` is a discard, or a field of `ts` with
+the same type, or the pointer / pointee version of it. -/
+def projOKc (ts : Fields) : Fields → Bool
+  | [] => true
+  | (k, _, t) :: ps =>
+    (match t with
+     | .discard => true
+     | t => match fieldType k ts with
+            | some t' => t.beq t' || t.beq (.ptr t') || (GoType.ptr t).beq t'
+            | none => false) && projOKc ts ps
+
+theorem decodeFields_projc_succeeds (cfg : DecCfg) (kvs : List (Cbor × Cbor)) (ts : Fields) (vs : List GoVal)
+    (hT : decodeFields cfg ts kvs = some vs) :
+    ∀ (ps : Fields), projOKc ts ps = true → ∃ ws, decodeFields cfg ps kvs = some ws
+  | [], _ => ⟨[], decodeFields_nil cfg kvs⟩
+  | (k, om, t) :: ps, h => by
+    simp only [projOKc, Bool.and_eq_true] at h
+    obtain ⟨ws, hws⟩ := decodeFields_projc_succeeds cfg kvs ts vs hT ps h.2
+    have : ∃ v, decodeKT cfg kvs k t = some v := by
+      cases t with
+      | discard => exact ⟨_, decodeKT_discard cfg kvs k⟩
+      | _ =>
+        all_goals
+          simp only at h
+          split at h
+          · rename_i t' ht'
+            obtain ⟨v, hv, _⟩ := getField_decodeFields cfg kvs k t' ts vs hT ht'
+            have h1 := h.1
+            simp only [Bool.or_eq_true] at h1
+            rcases h1 with (h1 | h1) | h1
+            · have := GoType.beq_sound _ _ h1; subst this; exact ⟨v, hv⟩
+            · have := GoType.beq_sound _ _ h1
+              rw [this]
+              rcases decodeKT_ptr_of cfg kvs k t' v hv with h2 | h2 <;> exact ⟨_, h2⟩
+            · have := GoType.beq_sound _ _ h1
+              subst this
+              exact decodeKT_of_ptr cfg kvs k _ v hv
+          · simp at h
+    obtain ⟨v, hv⟩ := this
+    exact ⟨v :: ws, (decodeFields_cons_some cfg k om t ps kvs _).mpr ⟨v, ws, rfl, hv, hws⟩⟩
+
+
+/-- A struct decoder only accepts a map or null / undefined; in all three cases tags are absent. -/
+theorem stripTags_of_struct (cfg : DecCfg) (fs : Fields) (c : Cbor) (v : GoVal)
+    (h : decodeVal cfg (.struct fs) c = some v) : stripTags c = c := by
+  cases c <;> simp [decodeVal] at h <;> simp [stripTags]
+
+/-- Decoding a struct type and taking a field, on a data item. -/
+def fieldOfItem (cfg : DecCfg) (fs : Fields) (key : Bytes) (c : Cbor) : Option GoVal :=
+  match decodeVal cfg (.struct fs) c with
+  | some v => getField (.struct fs) key v
+  | none => none
+
+theorem decodeVal_struct_cases (cfg : DecCfg) (fs : Fields) (c : Cbor) (v : GoVal)
+    (h : decodeVal cfg (.struct fs) c = some v) :
+    (∃ kvs vs, c = .map kvs ∧ decodeFields cfg fs kvs = some vs ∧ v = .struct vs) ∨
+    ((c = .simple 22 ∨ c = .simple 23) ∧ v = .struct (zeroFields fs)) := by
+  cases c with
+  | map kvs =>
+    left
+    simp only [decodeVal] at h
+    cases hd : decodeFields cfg fs kvs with
+    | none => simp [hd] at h
+    | some vs => simp [hd] at h; exact ⟨kvs, vs, rfl, hd, h.symm⟩
+  | simple n =>
+    right
+    by_cases h22 : n = 22
+    · subst h22; rw [decodeVal_null] at h; simp [zeroVal] at h; exact ⟨Or.inl rfl, h.symm⟩
+    · by_cases h23 : n = 23
+      · subst h23; simp [decodeVal] at h; exact ⟨Or.inr rfl, h.symm⟩
+      · simp [decodeVal] at h
+        split at h <;> simp_all
+  | uint n => simp [decodeVal] at h
+  | nint n => simp [decodeVal] at h
+  | bytes b => simp [decodeVal] at h
+  | text b => simp [decodeVal] at h
+  | array xs => simp [decodeVal] at h
+  | tag t v => simp [decodeVal] at h
+
+theorem decodeVal_struct_zero (cfg : DecCfg) (fs : Fields) (c : Cbor) (h : c = .simple 22 ∨ c = .simple 23) :
+    decodeVal cfg (.struct fs) c = some (.struct (zeroFields fs)) := by
+  rcases h with rfl | rfl <;> simp [decodeVal]
+
+/-- Pointer-typed projection of a value-typed field (`Timestamp *uint64`): nil (reported as
+"missing") or the field of the full result. -/
+theorem fieldOfItem_ptr_agrees (cfg : DecCfg) (ts ps : Fields) (hok : projOKc ts ps = true) (key : Bytes) (t : GoType)
+    (h1 : fieldType key ts = some t) (h2 : fieldType key ps = some (.ptr t)) (c : Cbor) (hv : GoVal)
+    (h : decodeVal cfg (.struct ts) c = some hv) :
+    fieldOfItem cfg ps key c = some .nil ∨ fieldOfItem cfg ps key c = getField (.struct ts) key hv := by
+  unfold fieldOfItem
+  rcases decodeVal_struct_cases cfg ts c hv h with ⟨kvs, vs, rfl, hT, rfl⟩ | ⟨hc, rfl⟩
+  · obtain ⟨ws, hP⟩ := decodeFields_projc_succeeds cfg kvs ts vs hT ps hok
+    obtain ⟨v, a1, a2⟩ := getField_decodeFields cfg kvs key t ts vs hT h1
+    obtain ⟨v', b1, b2⟩ := getField_decodeFields cfg kvs key (.ptr t) ps ws hP h2
+    simp only [decodeVal, hP, Option.map_some]
+    rw [b2, a2]
+    rcases decodeKT_ptr_of cfg kvs key t v a1 with h3 | h3 <;> rw [h3] at b1 <;> cases b1
+    · left; rfl
+    · right; rfl
+  · left
+    rw [decodeVal_struct_zero cfg ps c hc]
+    simp only
+    rw [getField_zeroFields key (.ptr t) ps h2]
+    rfl
+
+/-- Value-typed `felt` projection of a `*felt` field (`TransactionHash`): the field of the full
+result, nil read as the zero felt. -/
+theorem fieldOfItem_felt_agrees (cfg : DecCfg) (ts ps : Fields) (hok : projOKc ts ps = true) (key : Bytes)
+    (h1 : fieldType key ts = some (.ptr .felt)) (h2 : fieldType key ps = some .felt) (c : Cbor) (hv : GoVal)
+    (h : decodeVal cfg (.struct ts) c = some hv) :
+    fieldOfItem cfg ps key c = (getField (.struct ts) key hv).map feltOrZero := by
+  unfold fieldOfItem
+  rcases decodeVal_struct_cases cfg ts c hv h with ⟨kvs, vs, rfl, hT, rfl⟩ | ⟨hc, rfl⟩
+  · obtain ⟨ws, hP⟩ := decodeFields_projc_succeeds cfg kvs ts vs hT ps hok
+    obtain ⟨v, a1, a2⟩ := getField_decodeFields cfg kvs key (.ptr .felt) ts vs hT h1
+    obtain ⟨v', b1, b2⟩ := getField_decodeFields cfg kvs key .felt ps ws hP h2
+    simp only [decodeVal, hP, Option.map_some]
+    rw [b2, a2]
+    rw [decodeKT_felt_of_ptr cfg kvs key v a1] at b1
+    cases b1
+    rfl
+  · rw [decodeVal_struct_zero cfg ps c hc]
+    simp only
+    rw [getField_zeroFields key .felt ps h2, getField_zeroFields key (.ptr .felt) ts h1]
+    rfl
+
+/-- `decodeAlt` picks the alternative registered under the tag and decodes the content with it. -/
+theorem decodeAlt_some (cfg : DecCfg) : ∀ (alts : List (Nat × GoType)) (j tg : Nat) (c : Cbor) (r : GoVal),
+    decodeAlt cfg alts j tg c = some r →
+    ∃ i t tv, alts[i]? = some (tg, t) ∧ decodeVal cfg t c = some tv ∧ r = .iface (j + i) tv
+  | [], _, _, _, _, h => by simp [decodeAlt] at h
+  | (tag, t) :: alts, j, tg, c, r, h => by
+    simp only [decodeAlt] at h
+    by_cases ht : tag = tg
+    · subst ht
+      simp only [if_true] at h
+      cases hd : decodeVal cfg t c with
+      | none => simp [hd] at h
+      | some tv => simp [hd] at h; exact ⟨0, t, tv, by simp, hd, by simp [h]⟩
+    · simp only [ht, if_false] at h
+      obtain ⟨i, t', tv, h1, h2, h3⟩ := decodeAlt_some cfg alts (j + 1) tg c r h
+      exact ⟨i + 1, t', tv, by simpa using h1, h2, by rw [h3]; congr 1; omega⟩
+
+
+theorem nonNil_cases (x : Option GoVal) : nonNil x = none ∨ nonNil x = x := by
+  cases x with
+  | none => right; rfl
+  | some v => cases v <;> simp [nonNil]
+
+theorem projField_eq_fieldOfItem (cfg : DecCfg) (ts ps : Fields) (key : Bytes) (bs : Bytes) (c : Cbor) (hv : GoVal)
+    (hc : decodeAll bs = some c) (h : decodeVal cfg (.struct ts) c = some hv) :
+    projField cfg (.struct ps) key bs = fieldOfItem cfg ps key c := by
+  unfold projField fieldOfItem
+  rw [hc]
+  simp only [stripTags_of_struct cfg ts c hv h]
+  cases decodeVal cfg (GoType.struct ps) c <;> rfl
+
+/-- `GetBlockHeaderTimestampByNumber` (projection field `*uint64`, header field `uint64`): an error
+("missing Timestamp") or the timestamp of the fully decoded header. -/
+theorem timestamp_agrees (cfg : DecCfg) (bs : Bytes) (hv : GoVal) (h : unmarshalVal cfg tHeader bs = some hv) :
+    getBlockHeaderTimestamp cfg bs = none ∨ getBlockHeaderTimestamp cfg bs = getField tHeader kTimestamp hv := by
+  unfold unmarshalVal at h
+  cases hc : decodeAll bs with
+  | none => simp [hc] at h
+  | some c =>
+    simp only [hc] at h
+    unfold getBlockHeaderTimestamp
+    have e : projField cfg pHeaderTimestamp kTimestamp bs = fieldOfItem cfg (fieldsOf pHeaderTimestamp) kTimestamp c :=
+      projField_eq_fieldOfItem cfg (fieldsOf tHeader) (fieldsOf pHeaderTimestamp) kTimestamp bs c hv hc h
+    rw [e]
+    rcases fieldOfItem_ptr_agrees cfg (fieldsOf tHeader) (fieldsOf pHeaderTimestamp) (by decide) kTimestamp (.uint 64)
+      rfl rfl c hv h with h1 | h1
+    · left; rw [h1]; rfl
+    · rw [h1]; exact nonNil_cases _
+
+def txAlts : List (Nat × GoType) :=
+  match tTransaction with
+  | .iface alts => alts
+  | _ => []
+
+/-- `GetTransactionHashesByBlockNumber` per record (projection field `felt.Felt`, transaction field
+`*felt.Felt`, record tag-wrapped): for whichever of the five transaction types the full decoder
+finds under the tag, the projection reads that transaction's `TransactionHash` (nil as zero). -/
+theorem txhash_agrees (cfg : DecCfg) (bs : Bytes) (i : Nat) (tv : GoVal)
+    (h : unmarshalVal cfg tTransaction bs = some (.iface i tv)) :
+    ∃ tg fs, txAlts[i]? = some (tg, .struct fs) ∧
+      projField cfg pTransactionHash kTransactionHash bs =
+        (getField (.struct fs) kTransactionHash tv).map feltOrZero := by
+  unfold unmarshalVal at h
+  cases hc : decodeAll bs with
+  | none => simp [hc] at h
+  | some c =>
+    simp only [hc] at h
+    cases c with
+    | tag tg inner =>
+      have h' : decodeAlt cfg txAlts 0 tg inner = some (.iface i tv) := by
+        simpa [tTransaction, txAlts, decodeVal] using h
+      obtain ⟨i', t, tv', ha, hd, hr⟩ := decodeAlt_some cfg txAlts 0 tg inner _ h'
+      simp only [Nat.zero_add, GoVal.iface.injEq] at hr
+      obtain ⟨rfl, rfl⟩ := hr
+      have key : ∀ fs, t = .struct fs → projOKc fs (fieldsOf pTransactionHash) = true →
+          fieldType kTransactionHash fs = some (.ptr .felt) →
+          projField cfg pTransactionHash kTransactionHash bs =
+            (getField (.struct fs) kTransactionHash tv).map feltOrZero := by
+        intro fs ht hok hft
+        subst ht
+        have hs : stripTags (Cbor.tag tg inner) = inner := by
+          simp [stripTags, stripTags_of_struct cfg fs inner tv hd]
+        have : projField cfg pTransactionHash kTransactionHash bs =
+            fieldOfItem cfg (fieldsOf pTransactionHash) kTransactionHash inner := by
+          unfold projField fieldOfItem
+          rw [hc]
+          simp only [hs]
+          have e : decodeVal cfg pTransactionHash inner =
+              decodeVal cfg (.struct (fieldsOf pTransactionHash)) inner := rfl
+          rw [e]
+          cases decodeVal cfg (GoType.struct (fieldsOf pTransactionHash)) inner <;> rfl
+        rw [this]
+        exact fieldOfItem_felt_agrees cfg fs (fieldsOf pTransactionHash) hok kTransactionHash hft rfl inner tv hd
+      match i, ha with
+      | 0, ha =>
+        simp [txAlts, tTransaction] at ha
+        obtain ⟨rfl, rfl⟩ := ha
+        exact ⟨_, _, rfl, key _ rfl (by decide) rfl⟩
+      | 1, ha =>
+        simp [txAlts, tTransaction] at ha
+        obtain ⟨rfl, rfl⟩ := ha
+        exact ⟨_, _, rfl, key _ rfl (by decide) rfl⟩
+      | 2, ha =>
+        simp [txAlts, tTransaction] at ha
+        obtain ⟨rfl, rfl⟩ := ha
+        exact ⟨_, _, rfl, key _ rfl (by decide) rfl⟩
+      | 3, ha =>
+        simp [txAlts, tTransaction] at ha
+        obtain ⟨rfl, rfl⟩ := ha
+        exact ⟨_, _, rfl, key _ rfl (by decide) rfl⟩
+      | 4, ha =>
+        simp [txAlts, tTransaction] at ha
+        obtain ⟨rfl, rfl⟩ := ha
+        exact ⟨_, _, rfl, key _ rfl (by decide) rfl⟩
+      | n + 5, ha => simp [txAlts, tTransaction] at ha
+    | simple n =>
+      simp only [tTransaction, decodeVal] at h
+      split at h <;> simp_all
+    | uint n => simp [tTransaction, decodeVal] at h
+    | nint n => simp [tTransaction, decodeVal] at h
+    | bytes b => simp [tTransaction, decodeVal] at h
+    | text b => simp [tTransaction, decodeVal] at h
+    | array xs => simp [tTransaction, decodeVal] at h
+    | map kvs => simp [tTransaction, decodeVal] at h
+
+
 end Juno.C07
